@@ -16,7 +16,7 @@ import (
 func init() {
 	register(&Def{
 		ID: "C03",
-		Explanation: "Structural necessary conditions of DAG-CBOR decode strictness, decided on every path of the decoder functions in codec/dagcbor (found by role: functions interpreting a *tok.Token and driving a NodeAssembler): " +
+		Explanation: "Structural necessary conditions of DAG-CBOR decode strictness, decided on every path of the decoder functions in codec/dagcbor (found by role: functions interpreting a *tok.Token and driving a NodeAssembler):  (payload) every read of a token payload field lies, within its token epoch, beyond an edge on which Token.Type was found to be the type that field belongs to." +
 			"strictness flags handed to the tokenizer are constant-true on every non-relaxed path and reach cbor.NewDecoder; every assembler call that commits token data is behind a test of Token.Tagged within that token's epoch (only AssignLink may be reached on the tagged edge); AssignLink is guarded by tag==link constant, AllowLinks, length>=1, zero prefix byte and cid.Cast of the remainder; " +
 			"container Finish/entries are guarded by comparisons with the declared length; keys are string tokens and, in strict mode, pass a membership test on a set the key is then added to; a nil return of Decode is only possible behind err==io.EOF of a read after unmarshalling (or DontParseBeyondEnd / the assembler fast path); unsigned tokens reach AssignInt only below 2^63; the token switch is exhaustive. " +
 			"The tokenizer itself (refmt) is trusted; value fidelity of accepted input is not decided.",
